@@ -171,6 +171,16 @@ func (x *reloadRun) doc() bson.D {
 		}
 		d = append(d, bson.E{Key: k, Value: v})
 	}
+	if len(d) > 1 && d[0].Key == "_id" && r.P(30) {
+		// a caller-chosen _id in the middle or at the end: the stored field order is the caller's
+		id := d[0]
+		at := 2 + r.N(len(d)-1) // 2 … len(d): behind at least one other field
+		nd := append(bson.D{}, d[1:at]...)
+		nd = append(nd, id)
+		nd = append(nd, d[at:]...)
+		d = nd
+		x.tags["id_not_first"] = true
+	}
 	return d
 }
 
@@ -233,6 +243,18 @@ func (x *reloadRun) index() mongo.IndexModel {
 		keys[0].Key += ".n"
 	}
 	o := options.Index()
+	dirTyped := func(ks bson.D) {
+		// directions as int64 / double: the stored and listed specification keeps the caller's types
+		if r.P(40) {
+			for i := range ks {
+				if d, ok := ks[i].Value.(int32); ok {
+					ks[i].Value = []interface{}{int64(d), float64(d), d}[r.N(3)]
+					x.tags["idx_dir_typed"] = true
+				}
+			}
+		}
+	}
+
 	if r.P(40) {
 		o.SetUnique(true)
 		x.tags["idx_unique"] = true
@@ -283,7 +305,35 @@ func (x *reloadRun) index() mongo.IndexModel {
 			x.tags["idx_combo_named_desc_compound"] = true
 		}
 	}
+	dirTyped(keys)
 	return mongo.IndexModel{Keys: keys, Options: o}
+}
+
+// tail: shapes at the END of a history — a collection that is empty at the last commit but carries
+// secondary indexes (created empty, or emptied by DeleteMany({})).
+func (x *reloadRun) tail() {
+	r := x.r
+	ctx := context.Background()
+	if r.P(40) {
+		c := x.client.Database("d1").Collection([]string{"fresh", "fresh.c"}[r.N(2)])
+		x.tags["empty_created_with_indexes"] = true
+		x.call(func() error { return c.Database().CreateCollection(ctx, c.Name()) })
+		for i := 1 + r.N(3); i > 0; i-- {
+			m := x.index()
+			x.call(func() error { _, err := c.Indexes().CreateOne(ctx, m); return err })
+		}
+	}
+	if r.P(45) {
+		// empty the collection that has the most secondary indexes
+		x.tags["emptied_with_indexes"] = true
+		c := x.coll()
+		x.call(func() error { _, err := c.InsertOne(ctx, x.doc()); return err })
+		for i := 1 + r.N(2); i > 0; i-- {
+			m := x.index()
+			x.call(func() error { _, err := c.Indexes().CreateOne(ctx, m); return err })
+		}
+		x.call(func() error { _, err := c.DeleteMany(ctx, bson.D{}); return err })
+	}
 }
 
 func (x *reloadRun) step() {
@@ -304,14 +354,26 @@ func (x *reloadRun) step() {
 	case 9:
 		x.call(func() error { _, err := c.UpdateMany(ctx, x.filter(), x.update()); return err })
 	case 10:
+		f := x.filter()
+		if r.P(45) {
+			// the filter names _id after other fields: the upserted document keeps that order
+			f = bson.D{{Key: gen.Keys[r.N(len(gen.Keys))], Value: r.SmallNumber()}, {Key: "q", Value: "s"}, {Key: "_id", Value: r.ID()}}
+			x.tags["upsert_id_last_in_filter"] = true
+		}
 		x.call(func() error {
-			_, err := c.UpdateOne(ctx, x.filter(), x.update(), options.Update().SetUpsert(true))
+			_, err := c.UpdateOne(ctx, f, x.update(), options.Update().SetUpsert(true))
 			return err
 		})
 	case 11:
 		d := x.doc()
-		if len(d) == 0 {
-			d = bson.D{{Key: "_id", Value: r.ID()}}
+		if len(d) == 0 || d[0].Key != "_id" {
+			d = append(bson.D{{Key: "_id", Value: r.ID()}}, d...)
+			for i := 1; i < len(d); i++ {
+				if d[i].Key == "_id" {
+					d = append(d[:i], d[i+1:]...)
+					break
+				}
+			}
 		}
 		x.call(func() error { _, err := c.ReplaceOne(ctx, bson.D{{Key: "_id", Value: d[0].Value}}, d[1:]); return err })
 	case 12:
@@ -418,6 +480,72 @@ func (x *reloadRun) resumeFrom(cat *lungo.Catalog) (events string, at int) {
 		x.resumeShort = fmt.Sprintf("%d events delivered, %d are behind the token (event %d of %d)", n, want, at, len(log))
 	}
 	return fmt.Sprintf("%d delivered, %d behind the token: %s", n, want, sb.String()), at
+}
+
+// listings: ListIndexes of every user namespace through the driver (type-sensitive encoding).
+func (x *reloadRun) listings(cat *lungo.Catalog) (out string) {
+	defer func() {
+		if p := recover(); p != nil {
+			out += "panic"
+		}
+	}()
+	var sb strings.Builder
+	for _, h := range sortedHandles(cat) {
+		if h == lungo.Oplog || strings.Contains(h[0], ".") {
+			continue
+		}
+		sb.WriteString(h.String() + ":")
+		csr, err := x.client.Database(h[0]).Collection(h[1]).Indexes().List(context.Background())
+		if err != nil {
+			sb.WriteString("err;")
+			continue
+		}
+		var specs []bson.D
+		if err := csr.All(context.Background(), &specs); err != nil {
+			sb.WriteString("decode-err;")
+			continue
+		}
+		for _, sp := range specs {
+			sb.WriteString(vj.Enc(sp))
+		}
+		sb.WriteString(";")
+	}
+	return sb.String()
+}
+
+// runPairProbe inserts two fresh documents with equal values in every indexed field, one after the
+// other, into a clone of the collection (also an empty one): the answers show which unique
+// constraints are in force.
+func runPairProbe(c *lungo.Catalog, h lungo.Handle) (res string) {
+	defer func() {
+		if e := recover(); e != nil {
+			res = "panic"
+		}
+	}()
+	coll := c.Namespaces[h]
+	if coll == nil {
+		return "no-namespace"
+	}
+	clone := coll.Clone()
+	mk := func(id string) bsonkit.Doc {
+		d := bson.D{{Key: "_id", Value: id}}
+		for _, f := range []string{"a", "b", "c", "x", "a2", "b2", "c2", "x2"} {
+			d = append(d, bson.E{Key: f, Value: bson.D{{Key: "n", Value: int32(424242)}}})
+		}
+		return &d
+	}
+	for _, id := range []string{"pairA", "pairB"} {
+		_, err := clone.Insert(mk(id))
+		switch {
+		case err == nil:
+			res += "accepted,"
+		case lungo.IsUniquenessError(err):
+			res += "duplicate,"
+		default:
+			res += "error,"
+		}
+	}
+	return res
 }
 
 type probe struct {
@@ -532,8 +660,10 @@ func reloadExec(r *gen.R, useDotted bool, script func(x *reloadRun)) []run.Case 
 				x.bulk(n)
 			}
 		}
+		x.tail()
 	}
 	before := engine.Catalog()
+	listBefore := x.listings(before)
 	resumeBefore, resumeAt := x.resumeFrom(before)
 	engine.Close()
 
@@ -651,6 +781,29 @@ func reloadExec(r *gen.R, useDotted bool, script func(x *reloadRun)) []run.Case 
 			}
 		}
 	}
+	// monitor 2a: constraints of (possibly empty) collections: two fresh documents with equal keys, one
+	// after the other, are answered the same before and after
+	if j1 == j2 {
+		for _, h := range sortedHandles(before) {
+			if h == lungo.Oplog || after.Namespaces[h] == nil {
+				continue
+			}
+			if a, b := runPairProbe(before, h), runPairProbe(after, h); a != b {
+				v := viol("two colliding probe inserts are answered "+a+" before and "+b+" after reload", "unique-probe-differs:pair", h.String())
+				v.Req = req
+				viols = append(viols, v)
+				break
+			}
+		}
+	}
+	// monitor 2c: the LISTED index specifications (driver, type-sensitive) are identical
+	x.client = client2
+	if listAfter := x.listings(after); listAfter != listBefore {
+		v := viol("ListIndexes reports other specifications after the reload", "listing-differs", "before "+clip(listBefore, 500)+"\nafter  "+clip(listAfter, 500))
+		v.Req = req
+		viols = append(viols, v)
+	}
+
 	// monitor 2b: a change stream resumed after an OLD event of the log delivers the same events before
 	// the close and after the reload (and as many as the log holds behind the token)
 	if resumeAt >= 0 {
@@ -694,6 +847,86 @@ func reloadExec(r *gen.R, useDotted bool, script func(x *reloadRun)) []run.Case 
 			}
 		}()
 	}
+	// monitor 4: save → load → ONE MORE WRITE → save → load is a fixpoint: the write leaves every other
+	// namespace as it was, and the third catalog equals the second one plus the write
+	func() {
+		defer func() {
+			if p := recover(); p != nil {
+				tags = append(tags, "fixpoint_panic")
+			}
+		}()
+		if dotted || j1 != j2 {
+			return
+		}
+		ctx := context.Background()
+		target := lungo.Handle{"d1", "fixpoint"}
+		hs := sortedHandles(after)
+		if len(hs) > 1 && r.P(60) {
+			for _, h := range hs {
+				if h != lungo.Oplog {
+					target = h
+				}
+			}
+		}
+		doc := bson.D{{Key: "w", Value: int32(1)}, {Key: "_id", Value: "fixpoint"}, {Key: "z", Value: bson.A{int32(1), bson.D{{Key: "k", Value: "v"}}}}}
+		_, werr := client2.Database(target[0]).Collection(target[1]).InsertOne(ctx, doc)
+		mid := engine2.Catalog()
+		d3, _ := dumpCatalog(mid)
+		engine2.Close()
+		tags = append(tags, "fixpoint_checked")
+		byNS := func(d []nsDump) map[string]string {
+			m := map[string]string{}
+			for _, n := range d {
+				m[n.DB+"\x00"+n.Coll] = dumpJSON([]nsDump{n})
+			}
+			return m
+		}
+		m2, m3 := byNS(d2), byNS(d3)
+		for k, v := range m2 {
+			if k == "local\x00oplog" || k == target[0]+"\x00"+target[1] {
+				continue
+			}
+			if m3[k] != v {
+				vv := viol("a write after the reload changed a namespace it does not touch", "fixpoint:other-namespace-changed", strings.ReplaceAll(k, "\x00", ".")+" (write error: "+fmt.Sprint(werr)+")")
+				vv.Req = req
+				viols = append(viols, vv)
+				break
+			}
+		}
+		_, engine3, err := open()
+		if err != nil {
+			vv := viol("the store cannot be opened after a write that followed a reload", "fixpoint:load-error", err.Error())
+			vv.Req = req
+			viols = append(viols, vv)
+			return
+		}
+		d4, _ := dumpCatalog(engine3.Catalog())
+		if dumpJSON(d4) != dumpJSON(d3) {
+			w := "fixpoint:second-reload-differs"
+			detail := ""
+			m4 := byNS(d4)
+			for k, v := range m3 {
+				if m4[k] != v {
+					detail = strings.ReplaceAll(k, "\x00", ".") + ": " + clip(v, 300) + " became " + clip(m4[k], 300)
+					break
+				}
+			}
+			vv := viol("the catalog after load, write, save, load differs from the one after load, write", w, detail)
+			vv.Req = req
+			viols = append(viols, vv)
+		}
+		for _, h := range sortedHandles(engine3.Catalog()) {
+			issues := indexIssues(engine3.Catalog().Namespaces[h])
+			if is, bad := idIndexIssue(h, engine3.Catalog().Namespaces[h]); bad {
+				issues = append(issues, is)
+			}
+			for _, is := range issues {
+				viols = append(viols, run.Violation{Property: "C15", What: "an index does not hold exactly the documents of its collection (within its partial filter) in key order",
+					Witness: "index-incoherent:" + is.reason, Req: req, Detail: clip(h.String()+" after the second reload: "+is.detail, 700)})
+			}
+		}
+		engine3.Close()
+	}()
 	engine2.Close()
 
 	nontrivial := nDocs > 0 || nIdx > 1
@@ -898,6 +1131,9 @@ func init() {
 			"combinations, drops) over databases {d1,d2,a} x collections {c,e,c.d,b.c} and, in 12% of the cases, the dotted database a.b, on a FileStore in a temp dir; Close; reopen; " +
 			"option combinations (unique+TTL, unique+partial, TTL+partial, all, named descending compound), large expireAfterSeconds (30/60 days, 2^29, 2^30, 2147484), drops of the _id index by name and by key specification, " +
 			"8% of the histories with more than 100 (2%: more than 1000) change events; " +
+			"30% of the documents carry their _id behind other fields, 45% of the upserts name _id last in the filter, 40% of the index keys give their directions as int64 / double, " +
+			"40-45% of the histories end with a collection that is empty but has secondary indexes (created empty / emptied by DeleteMany); every history is followed by load, one more write, save, load " +
+			"(fixpoint: other namespaces untouched, third catalog = second + write); the ListIndexes output of every namespace is compared type-sensitively before close / after reload; " +
 			"compare dumps of every namespace (documents in order, index definitions, local.oplog), duplicate probes, a change stream resumed after an old event before and after the reload, index coherence and _id_ presence on both sides; model: loadfile on the real bytes, storefile through the real Load; " +
 			"non-trivial = the catalog holds a document or a secondary index",
 		Gen: func(r *gen.R, idx int) []run.Case { return reloadCase(r) },
